@@ -236,10 +236,10 @@ def check_deque(ctx, maxlen):
 # programs
 
 
-def real_logs(prog):
+def real_logs(prog, extra=()):
     out = {}
     tags = set()
-    for c in S.CONFIGS:
+    for c in S.CONFIGS + tuple(extra):
         r = S.RealRunner(prog, c, draws=DRAWS)
         out[c] = r.run()
         tags |= r.tags
@@ -287,16 +287,16 @@ def n_ops(prog):
     return sum(len(t["ops"]) for t in prog["tasks"]) + len(prog["init"])
 
 
-def explore(ctx, progs, label=""):
+def explore(ctx, progs, label="", extra=()):
     jobs = []
     pending = {}
     for prog in progs:
         ref = S.RefSched(prog).run()
-        logs, tags = real_logs(prog)
+        logs, tags = real_logs(prog, extra)
         tags = log_tags(logs, tags)
         text = S.prog_text(prog)
         ctx.case(text, sorted(tags))
-        for c in S.CONFIGS:
+        for c in S.CONFIGS + tuple(extra):
             if logs[c] != ref:
                 pending.setdefault(c, []).append(prog)
         jobs.append((prog, logs))
@@ -314,7 +314,7 @@ def explore(ctx, progs, label=""):
             best = cands[0]
             res = (S.RefSched(best).run(), S.RealRunner(best, c, draws=DRAWS).run())
         i = first_diff(res[0], res[1])
-        fam = "prio-loop" if c == "prio" else "deque-loops"
+        fam = "prio-loop" if c.startswith("prio") else "deque-loops"
         for k in range(len(cands)):
             ctx.violation(f"{fam}:program-order",
                           f"{label}on the {c} loop the execution log differs from the reference list model "
@@ -349,13 +349,41 @@ def explore(ctx, progs, label=""):
         ctx.traces += 3
 
 
+def soak(ctx):
+    """thorough tier only: > 65 536 insertions into the priority loop's ready queue without it ever running
+    empty — six equal-priority tasks doing nothing but `sleep(0)`, 11 100 rounds each (oracle only: the
+    reference list model; the Lean driver is not fed 66 000-step logs)."""
+    n, rounds = 6, 11100
+    prog = {"tasks": [{"kind": "prio" if i % 2 else "plain", "pri": "i:0", "ops": [["sleep0"]] * rounds} for i in range(n)],
+            "init": [["t", i] for i in range(n)], "locks": 0}
+    ref = S.RefSched(prog).run(max_steps=10 ** 7)
+    real = S.RealRunner(prog, "prio", draws=DRAWS).run()
+    ctx.case(f"soak {n}x{rounds}", ["soak-65536-insertions"])
+    ctx.extra["soak_events"] = len(real)
+    if real != ref:
+        i = first_diff(ref, real)
+        ctx.violation("prio-loop:soak-order",
+                      f"soak: {n} equal-priority tasks x {rounds} rounds of sleep(0) on the priority loop: the execution "
+                      f"order differs from the list model at event {i} of {len(ref)}: expected {ref[i:i+1]} got {real[i:i+1]}",
+                      {"soak": [n, rounds]}, expected=ref[max(0, i - 3):i + 4], observed=real[max(0, i - 3):i + 4],
+                      theorem="Asynkit.C08.listLike_priority_loop / each_runs_once")
+
+
 def corpus_cases():
     d = core.ROOT / "corpus" / PROP
     out = []
     if d.exists():
         for f in sorted(d.glob("*.json")):
-            out.append(json.loads(f.read_text())["prog"])
+            j = json.loads(f.read_text())
+            if j.get("config", "prio") in S.CONFIGS:
+                out.append(j["prog"])
     return out
+
+
+def corpus_cases_extra(config):
+    d = core.ROOT / "corpus" / PROP
+    return [j["prog"] for j in (json.loads(f.read_text()) for f in sorted(d.glob("*.json"))) if j.get("config") == config] \
+        if d.exists() else []
 
 
 SMALL_ALPHA = [["sleep0"], ["si", 0], ["si", 1], ["si", 3], ["sw", 0, None], ["sw", 1, None], ["sw", 1, 1],
@@ -381,6 +409,7 @@ def run(ctx):
     check_deque(ctx, 64)
     check_find_while_appending(ctx)
     explore(ctx, corpus_cases(), label="corpus: ")
+    explore(ctx, corpus_cases_extra("prio-seq"), label="corpus: ", extra=("prio-seq",))
     if ctx.thorough():
         n_rand, n_long = 12000, 600
     else:
@@ -391,7 +420,10 @@ def run(ctx):
     for i in range(0, len(progs), 2000):
         explore(ctx, progs[i:i + 2000])
     progs = [S.gen_program(rng, "c08", n_tasks=rng.randint(3, 6), long=True) for _ in range(n_long)]
-    explore(ctx, progs, label="long: ")
+    # long histories also run with the heap's arrival counter started near 2**16 (see RealRunner: "prio-seq")
+    explore(ctx, progs, label="long: ", extra=("prio-seq",))
+    if ctx.thorough():
+        soak(ctx)
     progs = [S.gen_bound(rng) for _ in range(n_long * 2)]
     ctx.sample(progs[0])
     explore(ctx, progs, label="bound-method callbacks: ")
@@ -409,6 +441,9 @@ def run(ctx):
 
 def replay(ctx, data):
     case = data["case"]
+    if "soak" in case:
+        soak(ctx)
+        return
     if "dq" in case and case["dq"].startswith("findappend"):
         check_find_while_appending(ctx)
         return
@@ -424,4 +459,5 @@ def replay(ctx, data):
             if m != r:
                 ctx.disagreement(f"model and implementation answer `{ln}` differently", case, expected=m, observed=r)
         return
-    explore(ctx, [case["prog"]], label="replay: ")
+    cfg = case.get("config")
+    explore(ctx, [case["prog"]], label="replay: ", extra=(cfg,) if cfg and cfg not in S.CONFIGS else ())
